@@ -127,6 +127,7 @@ Why(x) ==
     [] x.k = "twin"     -> { "twin_" \o k : k \in { k \in DOMAIN x.same : ~x.same[k] } }
     [] x.k = "cpu"      -> A(CpuOK(em[x.id], x), "cpu")
     [] x.k = "decode"   -> A(DecodeOK(x), "decode")
+    [] x.k = "crash"    -> {"observer_panic"}       \* a public accessor of the real emitter panicked
     [] OTHER            -> {"unknown_event"}
 Ok(x) == Why(x) = {}
 
